@@ -784,7 +784,13 @@ func runNode(c *Ctx) {
 	if lines := c.CorpusLines(); len(lines) > 0 {
 		replayNode(c, lines)
 	}
+	withOpool := len(c.Args) > 1 && c.Args[1] == "opool"
 	for i := 0; i < c.N && !concWedged; i++ {
+		if withOpool && i%3 == 2 {
+			// orphan pool with capacity limit, LRU eviction and expiry (node_opool.go)
+			runNodeCase(c, "opool", c.Seed, i)
+			continue
+		}
 		runNodeCase(c, mode, c.Seed, i)
 	}
 	closeParkedNodes()
@@ -809,6 +815,8 @@ func runNodeCase(c *Ctx, mode string, seed int64, k int) {
 		genCasePool(c, mode)
 	case "conc":
 		genCaseConc(c, mode)
+	case "opool":
+		genCaseOpool(c)
 	default:
 		genCaseTree(c, mode)
 	}
